@@ -135,11 +135,13 @@ DOMNode* DOMNodeIteratorImpl::nextNode () {
 
     DOMNode* aNextNode = fCurrentNode;
     bool accepted = false; // the next node has not been accepted.
+    // the position (node and direction) only changes when a node is returned
+    bool forward = fForward;
 
     while (!accepted) {
 
         // if last direction is not forward, repeat node->
-        if (!fForward && (aNextNode != 0)) {
+        if (!forward && (aNextNode != 0)) {
             //System.out.println("nextNode():!fForward:"+fCurrentNode.getNodeName());
             aNextNode = fCurrentNode;
         } else {
@@ -147,7 +149,7 @@ DOMNode* DOMNodeIteratorImpl::nextNode () {
             aNextNode = nextNode(aNextNode, true);
         }
 
-        fForward = true; //REVIST: should direction be set forward before 0 check?
+        forward = true;
 
         // nothing in the list. return 0.
         if (!aNextNode) return 0;
@@ -157,6 +159,7 @@ DOMNode* DOMNodeIteratorImpl::nextNode () {
         if (accepted) {
             // if so, then the node is the current node->
             fCurrentNode = aNextNode;
+            fForward = true;
             return fCurrentNode;
         }
     }
@@ -179,10 +182,12 @@ DOMNode* DOMNodeIteratorImpl::previousNode () {
 
     DOMNode* aPreviousNode = fCurrentNode;
     bool accepted = false;
+    // the position (node and direction) only changes when a node is returned
+    bool forward = fForward;
 
     while (!accepted) {
 
-        if (fForward && (aPreviousNode != 0)) {
+        if (forward && (aPreviousNode != 0)) {
             //repeat last node->
             aPreviousNode = fCurrentNode;
         } else {
@@ -191,7 +196,7 @@ DOMNode* DOMNodeIteratorImpl::previousNode () {
         }
 
         // we are going backwards
-        fForward = false;
+        forward = false;
 
         // if the new previous node is 0, we're at head or past the root,
         // so return 0.
@@ -202,6 +207,7 @@ DOMNode* DOMNodeIteratorImpl::previousNode () {
         if (accepted) {
             // if accepted, update the current node, and return it.
             fCurrentNode = aPreviousNode;
+            fForward = false;
             return fCurrentNode;
         }
     }
